@@ -25,6 +25,21 @@ end
 theorem Cell.reprO_mem_reprs (H : List UInt8 → List UInt8) (c : Cell) : c.reprO H ∈ Cell.reprs H c := by
   cases c; simp [Cell.reprs, Cell.reprO]
 
+theorem Cell.reprs_sub_reprsList (H : List UInt8 → List UInt8) : ∀ (cs : List Cell) (c : Cell), c ∈ cs →
+    ∀ x ∈ Cell.reprs H c, x ∈ Cell.reprsList H cs
+  | [], _, hc, _, _ => by simp at hc
+  | d :: ds, c, hc, x, hx => by
+    simp only [Cell.reprsList, List.mem_append]
+    rcases List.mem_cons.mp hc with rfl | h
+    · exact Or.inl hx
+    · exact Or.inr (Cell.reprs_sub_reprsList H ds c h x hx)
+
+/-- the representation of a direct reference belongs to the representations of the tree -/
+theorem Cell.reprO_ref_mem (H : List UInt8 → List UInt8) (ty mask : Nat) (bits : List Bool) (refs : List Cell) (r : Cell)
+    (hr : r ∈ refs) : r.reprO H ∈ Cell.reprs H (.mk ty mask bits refs) := by
+  simp only [Cell.reprs, List.mem_cons]
+  exact Or.inr (Cell.reprs_sub_reprsList H refs r hr _ (Cell.reprO_mem_reprs H r))
+
 mutual
 theorem Cell.hashO_tree_inj (H : List UInt8 → List UInt8) (hlen : ∀ x, (H x).length = 32) :
     ∀ (c c' : Cell), c.wfOrd = true → c'.wfOrd = true →
